@@ -190,6 +190,9 @@ void schedule(Th* me, const char* what, uintptr_t addr, bool exiting = false) {
             idx = pmc_choose(n, PMC_SCHED, me_enabled ? 1 : 0, lb);
         } else if (pmc_verbose() && n == 1) pmc_log("          (no choice) T%d(%s) %s %lx%s -> T%d", me->id, me->name, what, (unsigned long)addr, me_enabled ? "" : " [blocked]", list[0]->id);
         Th* next = list[idx];
+        // history marker: this vCPU is preempted between releasing its run-queue lock and saving the outgoing thread's context (the window of
+        // known finding F2): whatever ends this execution carries the marker in its signature
+        if (next != me && me_enabled && me->switching_from && !strcmp(what, "prepare_switch")) pmc_tag("in-switch-window:");
         for (int i = 0; i < NT; i++) TH[i].spinning_forced = false;
         if (next == me) {
             if (n > 1) me->consec++;
